@@ -547,7 +547,7 @@ def run_C19(run):
     run.fails = run.triage(fails)
     run.assumptions = ["floating conversions: real-number semantics (pow is the real power function, every operation exact) with the binary32 values of the source constants; float rounding is outside the theorems and is exercised by the oracle (tolerance 3e-6 float / 1e-9 double against a double reference)",
                        "HSV: rgbColor switches on int(sector), a conversion of a traced float to a concrete int, which the tracer does not enumerate; rgbColor/hsvColor (range, value = max, mutual inverse on the cube and over the full hue circle incl. sector boundaries) are covered by the oracle only; hsvColor returns a NaN hue for grey colours, which the property leaves undefined",
-                       "the 3- and 4-component sRGB overloads are tied to the one-component theorem by the alpha theorem (syntactic) and the oracle's per-component comparison; the lowp convertLinearToSRGB approximation (a different formula) is not covered",
+                       "the 3- and 4-component sRGB overloads are tied to the one-component theorem by the alpha theorem (syntactic) and the oracle's per-component comparison; the lowp vec3 convertLinearToSRGB approximation (a different formula) is covered by the oracle only (2e-3 from the threshold upwards; below it: recorded finding)",
                        "YCoCg-R on 8/16-bit element types (integer promotion) is covered by the oracle: all 2^24 8-bit triples for uint8, int16, int, uint32 (int8 strided in the quick tier) and a 16-bit lattice; the theorems are for unbounded integers and for int32 with wrap-around",
                        "the reverse composite rgb2YCoCgR(YCoCgR2rgb(x)) is proved for unbounded integers only"]
     run.samples.append("oracle: all 2^24 8-bit RGB triples x {uint8, int16, int, uint32} + int8 + 16-bit lattice; sRGB: grid i/60000 and random x in [0,1], the thresholds 0.0031308 and 0.04045 +- 1e-5, successor pairs for monotonicity, gamma random in [1,3] and exactly 2.4; HSV: random and 1/8-lattice colours incl. equal channels, hues at 60k and random over [0,360); saturation s in [0,2]")
